@@ -28,8 +28,7 @@ META = {
             'types x 0-2 rows with nulls x global_tables_spec x has_more_pages x no_metadata x new_metadata_id x DSE continuous page '
             'flags) / prepared (bind columns x global spec x pk indexes x result metadata x metadata ids), EVENT topology/status/schema, '
             'SUPPORTED, READY, AUTHENTICATE, AUTH_CHALLENGE, AUTH_SUCCESS, each with every subset of {tracing id, warnings, custom '
-            'payload} x compression (quick: every body x {bare, fully decorated} and a core list of bodies x all decorations; '
-            'thorough: every body x all decorations x stream ids x beta flag). Frames come from vt.spec.frames.build_response; the '
+            'payload} x compression (thorough: additionally x stream ids {0,1,max} x beta flag and empty warnings / payload). Frames come from vt.spec.frames.build_response; the '
             'decoded message fields, to_exception() type and attributes and summary_msg() must equal the description.',
     'note': 'Trusted base: vt/spec/frames.py.  A table in this check states which message / exception class and attribute names the '
             'driver documents for each error code.  Cell values use a minimal codec (int, bigint, varchar, ascii, blob, list, set, '
@@ -282,11 +281,6 @@ def decorations(v, full):
             ex.append(dict(tracing=TRACE, warnings=[], payload={}, compress=bool(len(co) > 1), stream=0, beta=True))
         out += ex
     return out
-
-
-def bare_and_full(v):
-    d = decorations(v, False)
-    return [d[0], d[-1]]
 
 
 # ------------------------------------------------------------------------------------------------
@@ -623,59 +617,76 @@ def _compare_error(env, v, desc, msg, chk, probs):
 
 
 # ------------------------------------------------------------------------------------------------
-def core_body(desc, seen):
-    """quick tier: the first body of every sub-kind gets all decorations."""
-    k = subkind(desc)
-    if k in seen:
-        return False
-    seen.add(k)
-    return True
-
-
 def cases(group, v, tier):
     """Deterministic enumeration of (index, desc, deco) for one group and version."""
-    seen = set()
     full = decorations(v, tier == 'thorough')
-    small = bare_and_full(v)
     i = 0
     for desc in GROUPS[group](v, tier):
-        decs = full if (tier == 'thorough' or core_body(desc, seen)) else small
-        for d in decs:
+        for d in full:
             yield i, desc, d
             i += 1
 
 
+BARE = dict(tracing=None, warnings=None, payload=None, compress=False, stream=0, beta=False)
+
+
+def deco_trigger(env, v, desc, deco, field, kindf):
+    """If resetting a single frame decoration makes this failure disappear, name it (first in order)."""
+    for k in ('tracing', 'warnings', 'payload', 'compress', 'stream', 'beta'):
+        if deco[k] == BARE[k]:
+            continue
+        d2 = dict(deco)
+        d2[k] = BARE[k]
+        probs, _ = evaluate(env, v, desc, d2)
+        if not any(p[0] == field and p[1] == kindf for p in probs):
+            return k
+    return None
+
+
 def run_chunk(args):
-    group, v, tier, idx, n = args
+    """Worker `idx` of `n`: walks the whole enumeration and takes every n-th case."""
+    tier, idx, n = args
     env = Env.get()
     part = Part()
     seen_fp = set()
-    for i, desc, deco in cases(group, v, tier):
-        if i % n != idx:
-            continue
-        probs, frame = evaluate(env, v, desc, deco)
-        part.count('evaluations')
-        sk = subkind(desc)
-        decorated = deco['tracing'] is not None or deco['warnings'] is not None or deco['payload'] is not None or deco['compress']
-        if decorated or desc['op'] in ('ERROR', 'RESULT', 'EVENT'):
-            part.count('distinct_nontrivial')
-        part.outcome('%s %s' % (sk, 'ok' if not probs else 'FAIL'))
-        for field, kindf, what in probs:
+    j = -1
+    for group in GROUPS:
+        for v in F.VERSIONS:
+            for i, desc, deco in cases(group, v, tier):
+                j += 1
+                if j % n != idx:
+                    continue
+                _one(env, part, seen_fp, group, v, tier, i, desc, deco)
+    return part
+
+
+def _one(env, part, seen_fp, group, v, tier, i, desc, deco):
+    probs, frame = evaluate(env, v, desc, deco)
+    part.count('evaluations')
+    sk = subkind(desc)
+    decorated = deco['tracing'] is not None or deco['warnings'] is not None or deco['payload'] is not None or deco['compress']
+    if decorated or desc['op'] in ('ERROR', 'RESULT', 'EVENT'):
+        part.count('distinct_nontrivial')
+    part.outcome('%s %s' % (sk, 'ok' if not probs else 'FAIL'))
+    for field, kindf, what in probs:
+        trig = deco_trigger(env, v, desc, deco, field, kindf)
+        if trig is not None:        # a frame-level failure, the same for every message kind
+            fp = 'C04/decoration.%s/%s/%s' % (trig, field, kindf)
+        else:
             fp = 'C04/%s/%s/%s' % (sk, field, kindf)
             if field == 'decode' and (desc.get('colset') or desc.get('bindset')):
                 fp += '/' + (desc.get('colset') or desc.get('bindset'))      # input class: which column set
-            if fp in seen_fp:
-                part.count('violating_cases')
-                continue
-            seen_fp.add(fp)
-            part.violation(fp, '%s on protocol version %s, decorations %r: %s; description=%r; frame=%s' % (
-                sk, hex(v) if v > 6 else v, {k: x for k, x in deco.items() if x}, what,
-                {k: x for k, x in desc.items() if k != 'cols'}, frame.hex()[:400]),
-                {'group': group, 'version': v, 'tier': tier, 'index': i, 'subkind': sk})
-        if not probs and decorated and desc['op'] == 'RESULT' and desc['kind'] in ('rows', 'prepared'):
-            part.sample({'version': v, 'subkind': sk, 'meta': desc.get('meta') or desc.get('args', {}).get('result_meta'),
-                         'decorations': sorted(k for k, x in deco.items() if x), 'frame': frame.hex()[:300]}, limit=1)
-    return part
+        if fp in seen_fp:
+            part.count('violating_cases')
+            continue
+        seen_fp.add(fp)
+        part.violation(fp, '%s on protocol version %s, decorations %r: %s; description=%r; frame=%s' % (
+            sk, hex(v) if v > 6 else v, {k: x for k, x in deco.items() if x}, what,
+            {k: x for k, x in desc.items() if k != 'cols'}, frame.hex()[:400]),
+            {'group': group, 'version': v, 'tier': tier, 'index': i, 'subkind': sk})
+    if not probs and decorated and desc['op'] == 'RESULT' and desc['kind'] in ('rows', 'prepared'):
+        part.sample({'version': v, 'subkind': sk, 'meta': desc.get('meta') or desc.get('args', {}).get('result_meta'),
+                     'decorations': sorted(k for k, x in deco.items() if x), 'frame': frame.hex()[:300]}, limit=1)
 
 
 def run(ctx):
@@ -683,21 +694,15 @@ def run(ctx):
         raise HarnessError('vt.spec.frames self-test failed')
     Env.get()
     gc.freeze()          # keep the imported heap out of the workers' collections (no copy-on-write storms)
-    items = []
-    for group in GROUPS:
-        for v in F.VERSIONS:
-            n = 2 if ctx.quick else 16
-            for idx in range(n):
-                items.append((group, v, ctx.tier, idx, n))
-    items = ctx.rotate(items)
+    n = min(8, ctx.nproc) if ctx.quick else 4 * ctx.nproc       # few workers for the small tier: forking costs more than it saves
+    items = ctx.rotate([(ctx.tier, idx, n) for idx in range(n)])
     for part in ctx.pmap(run_chunk, items):
         ctx.merge(part)
     ctx.cov['rule'] = ('cases = version {1,2,3,4,5,6,0x41,0x42} x response bodies (errors: all codes x field grid; rows: column sets x '
                        'row sets x metadata flag combinations; prepared: bind sets x global spec x pk indexes x result metadata; schema '
                        'changes, events over 5 addresses, supported, ready, authenticate, auth tokens) x decorations (every subset of '
                        'tracing id / warnings / custom payload x compression%s); non-trivial = ERROR/RESULT/EVENT body or any decoration' % (
-                           '; all of them on the first body of each sub-kind, bare + fully decorated on the others' if ctx.quick
-                           else ' x stream ids {0,1,max} x beta flag, plus empty warnings/payload'))
+                           '' if ctx.quick else ' x stream ids {0,1,max} x beta flag, plus empty warnings/payload'))
     ctx.cov['exhaustive'] = True
     ctx.assume('header fields are split off as Connection._read_frame_header does and passed to decode_message as Connection.process_msg does; '
                'user_type_map is empty; for no_metadata rows the result_metadata of the prepared statement is supplied (as the session does)')
